@@ -5,6 +5,8 @@
   phase accepted and the captures (if any are due) succeeded with `old`.
 -/
 import IcontractModel.Lemmas.Instances
+import IcontractModel.Lemmas.Post
+import IcontractModel.Props.C01
 import IcontractModel.Spec.Trace
 namespace Icontract
 open Res
@@ -32,7 +34,9 @@ theorem C02_sync_body_exception_passes_unchanged (ck : Checker) (o : Oracle) (ca
     (old : List (String × Id)) (h : ReachesBodySync ck o call old) (e : Exc) (hb : o.body = .raises e) :
     (checkedSync ck o call).out = .error (.user e) ∧
     (checkedSync ck o call).trace.getLast? = some (.body call.args call.kwargs) := by
-  sorry
+  rw [checkedSync_eq]
+  exact checkedG_body_exception (syncHooks o) ck call old h.valid
+    (syncHooks_pre_none o _ _ h.pre) h.cap o rfl e hb
 
 /-- If the body returns `v` and every postcondition holds (evaluated against the arguments, `result`
 and `OLD`), the caller receives the very object `v`. -/
@@ -40,7 +44,10 @@ theorem C02_sync_returns_body_result (ck : Checker) (o : Oracle) (call : Call)
     (old : List (String × Id)) (h : ReachesBodySync ck o call old) (v : Id) (hb : o.body = .ret v)
     (hall : cnfHolds false o ((kwAtBody ck (resolved ck call) old).set "result" (.obj v)) ck.posts) :
     (checkedSync ck o call).out = .ok v := by
-  sorry
+  rw [checkedSync_eq]
+  exact checkedG_returns (syncHooks o) ck call old h.valid
+    (syncHooks_pre_none o _ _ h.pre) h.cap (condTruthy false o)
+    (evalPostSync_false_iff o) v (runBody_out_ret o call v hb) hall
 
 /-- If some postcondition is falsy (plain truth values), the error of the *first* falsy one is raised
 instead of a return. -/
@@ -52,25 +59,37 @@ theorem C02_sync_first_falsy_postcondition_raises (ck : Checker) (o : Oracle) (c
     (err : Raised)
     (herr : errorOf o ((kwAtBody ck (resolved ck call) old).set "result" (.obj v)) c = some err) :
     (checkedSync ck o call).out = .error err := by
-  sorry
+  rw [checkedSync_eq]
+  exact checkedG_first_falsy (syncHooks o) ck call old h.valid
+    (syncHooks_pre_none o _ _ h.pre) h.cap (condTruthy false o) (condFalsy false o)
+    (evalPostSync_false_iff o) (evalPostSync_true_of_falsy o) v (runBody_out_ret o call v hb)
+    htot c hc err (createViolationError_errorOf o _ c err herr)
 
 /-- The caller never gets a normal return unless every postcondition answered truthy (all oracles). -/
 theorem C02_sync_return_only_if_posts_hold (ck : Checker) (o : Oracle) (call : Call) (v : Id)
     (hret : (checkedSync ck o call).out = .ok v) :
     o.body = .ret v ∧ ∃ old, cnfHolds false o ((kwAtBody ck (resolved ck call) old).set "result" (.obj v)) ck.posts := by
-  sorry
+  rw [checkedSync_eq] at hret
+  obtain ⟨hb, old, hall⟩ := checkedG_return_only_if (syncHooks o) ck call (condTruthy false o)
+    (evalPostSync_false_iff o) v hret
+  exact ⟨runBody_out_ok o call v hb, old, hall⟩
 
 theorem C02_async_body_exception_passes_unchanged (ck : Checker) (o : Oracle) (call : Call)
     (old : List (String × Id)) (h : ReachesBodyAsync ck o call old) (e : Exc) (hb : o.body = .raises e) :
     (checkedAsync ck o call).out = .error (.user e) ∧
     (checkedAsync ck o call).trace.getLast? = some (.body call.args call.kwargs) := by
-  sorry
+  rw [checkedAsync_eq]
+  exact checkedG_body_exception (asyncHooks o) ck call old h.valid
+    (asyncHooks_pre_none o _ _ h.pre) h.cap o rfl e hb
 
 theorem C02_async_returns_body_result (ck : Checker) (o : Oracle) (call : Call)
     (old : List (String × Id)) (h : ReachesBodyAsync ck o call old) (v : Id) (hb : o.body = .ret v)
     (hall : cnfHolds true o ((kwAtBody ck (resolved ck call) old).set "result" (.obj v)) ck.posts) :
     (checkedAsync ck o call).out = .ok v := by
-  sorry
+  rw [checkedAsync_eq]
+  exact checkedG_returns (asyncHooks o) ck call old h.valid
+    (asyncHooks_pre_none o _ _ h.pre) h.cap (condTruthy true o)
+    (evalCondAsync_false_iff o) v (runBody_out_ret o call v hb) hall
 
 theorem C02_async_first_falsy_postcondition_raises (ck : Checker) (o : Oracle) (call : Call)
     (old : List (String × Id)) (h : ReachesBodyAsync ck o call old) (v : Id) (hb : o.body = .ret v)
@@ -80,11 +99,18 @@ theorem C02_async_first_falsy_postcondition_raises (ck : Checker) (o : Oracle) (
     (err : Raised)
     (herr : errorOf o ((kwAtBody ck (resolved ck call) old).set "result" (.obj v)) c = some err) :
     (checkedAsync ck o call).out = .error err := by
-  sorry
+  rw [checkedAsync_eq]
+  exact checkedG_first_falsy (asyncHooks o) ck call old h.valid
+    (asyncHooks_pre_none o _ _ h.pre) h.cap (condTruthy true o) (condFalsy true o)
+    (evalCondAsync_false_iff o) (evalCondAsync_true_of_falsy o) v (runBody_out_ret o call v hb)
+    htot c hc err (createViolationError_errorOf o _ c err herr)
 
 theorem C02_async_return_only_if_posts_hold (ck : Checker) (o : Oracle) (call : Call) (v : Id)
     (hret : (checkedAsync ck o call).out = .ok v) :
     o.body = .ret v ∧ ∃ old, cnfHolds true o ((kwAtBody ck (resolved ck call) old).set "result" (.obj v)) ck.posts := by
-  sorry
+  rw [checkedAsync_eq] at hret
+  obtain ⟨hb, old, hall⟩ := checkedG_return_only_if (asyncHooks o) ck call (condTruthy true o)
+    (evalCondAsync_false_iff o) v hret
+  exact ⟨runBody_out_ok o call v hb, old, hall⟩
 
 end Icontract
